@@ -21,7 +21,7 @@ COQ_BRANCHES = ("TcpSock.case_branches", "TcpSock.n_branches")
 SHARD = 150
 RULE = ("event sequences over a plain or TLS tcp Server (reopen incl. failing bind / serviceAccepts / serviceAxes / "
         "serviceCxes / serviceConnects with batches of accepted connections from 4 peer addresses, each with a "
-        "malformed flag and a TLS handshake script (want/ok/eof/sslerror/oserror/exception); receive outcomes "
+        "malformed flag and a TLS handshake script (WANT_READ / WANT_WRITE / ok / SSL EOF / other SSLError / OSError ECONNABORTED / ECONNRESET / ETIMEDOUT / EPIPE / non-OSError exception); receive outcomes "
         "data/eof/reset/unexpected error; removeIx / closeIx / close) and over a plain or TLS Client (open / reopen / "
         "close / accept and serviceConnect with connect_ex outcomes ok/in-progress/refused/raise, timer expiry, TLS "
         "handshake outcomes); a case is non-trivial when at least one socket is held outside `ixes` (pending "
@@ -34,7 +34,8 @@ MODELLED = ["socket objects (fake socket module: ids in creation order, close() 
             "CPython's refcount finaliser closing unreachable sockets is not credited: explicit close() only"]
 
 NCA = 4
-HS = ["want", "ok", "eof", "ssl", "os", "exc"]
+HS = ["want", "wantw", "ok", "eof", "ssl", "os", "reset", "timedout", "pipe", "exc"]
+HS_W = [5, 1, 5, 1, 1, 1, 1.2, 0.6, 0.6, 0.4]
 RECV = ["data", "eof", "reset", "err"]
 COUT = ["ok", "inprog", "refused", "raise"]
 
@@ -186,8 +187,16 @@ class FakeSock:
             o = c.world.hs_outcome                  # client socket: outcome of the current event
         if o == "want":
             raise _ssl.SSLWantReadError(_ssl.SSL_ERROR_WANT_READ, "The operation did not complete (read)")
+        if o == "wantw":
+            raise _ssl.SSLWantWriteError(_ssl.SSL_ERROR_WANT_WRITE, "The operation did not complete (write)")
         if o == "ok":
             return
+        if o == "reset":
+            raise ConnectionResetError(_errno.ECONNRESET, "Connection reset by peer")
+        if o == "timedout":
+            raise TimeoutError(_errno.ETIMEDOUT, "Connection timed out")
+        if o == "pipe":
+            raise BrokenPipeError(_errno.EPIPE, "Broken pipe")
         if o == "eof":
             raise _ssl.SSLError(_ssl.SSL_ERROR_EOF, "EOF occurred in violation of protocol")
         if o == "ssl":
@@ -275,6 +284,13 @@ def directed():
         {"kind": "tls", "evs": [["reopen", False], ["connects", [C(0, False, ["eof"]), C(1, False, ["ssl"]),
                                                                   C(2, False, ["os"]), C(3, False, ["want", "exc"])]],
                                 ["cxes"], ["cxes"], ["connects", [C(1, False, ["ok"])]], ["recv", 1, "err"], ["close"]]},
+        # every way a handshake can fail (seeded change C11-2 witness: OSError other than ECONNABORTED): abort = close + forget
+        {"kind": "tls", "evs": [["reopen", False], ["connects", [C(0, False, ["reset"]), C(1, False, ["want", "timedout"]),
+                                                                  C(2, False, ["wantw", "pipe"]), C(3, False, ["wantw", "os"])]],
+                                ["cxes"], ["close"]]},
+        {"kind": "tls", "evs": [["reopen", False], ["connects", [C(0, False, ["wantw", "wantw", "ok"])]], ["cxes"], ["cxes"],
+                                ["connects", [C(0, False, ["pipe"]), C(1, False, ["timedout"])]], ["recv", 0, "data"],
+                                ["close"]]},
         {"kind": "tls", "evs": [["reopen", False], ["connects", [C(0, True, ["ok"]), C(1, False, ["ok"])]],
                                 ["connects", []], ["recv", 1, "eof"], ["removeix", 1], ["close"], ["cxes"]]},
         # clients
@@ -285,7 +301,9 @@ def directed():
         {"kind": "clienttls", "evs": [["open"], ["connect", "inprog", "want"], ["connect", "ok", "want"],
                                       ["connect", "ok", "ok"], ["reopen"], ["connect", "ok", "eof"],
                                       ["connect", "ok", "ssl"], ["connect", "refused", "ok"], ["connect", "ok", "exc"],
-                                      ["svc", "ok", "os", True], ["svc", "ok", "want", True], ["svc", "ok", "ok", False],
+                                      ["svc", "ok", "os", True], ["svc", "ok", "reset", False], ["connect", "ok", "pipe"],
+                                      ["connect", "ok", "timedout"], ["connect", "ok", "wantw"],
+                                      ["svc", "ok", "want", True], ["svc", "ok", "ok", False],
                                       ["close"]]},
     ]
 
@@ -298,7 +316,7 @@ def _gen_conns(rng, tls):
         hs = []
         if tls:
             n = rng.choice([0, 1, 1, 2, 3])
-            hs = [rng.choices(HS, [5, 5, 1, 1, 1, 0.4])[0] for _ in range(n)]
+            hs = [rng.choices(HS, HS_W)[0] for _ in range(n)]
         out.append([k, bad, hs])
     return out
 
@@ -626,7 +644,7 @@ def _free_port():
     return p
 
 
-def _real_round(tls, rng):
+def _real_round(tls, rng, see_reset=None):
     """One scenario over real loopback sockets.  Every socket object the server ever held is kept
     referenced (so CPython's finaliser cannot hide a missing close()); returns None or a failure text."""
     import time
@@ -675,6 +693,8 @@ def _real_round(tls, rng):
             c.close()
             clients.remove(c)
             time.sleep(0.005)
+            if see_reset if see_reset is not None else rng.random() < 0.5:
+                service()      # TLS: do_handshake now fails with ECONNRESET in the middle of the handshake
             replaced += 1
         c = connect(lport)
         service()
@@ -757,9 +777,9 @@ def extra(tier, ctx):
     rounds = 4 if tier == "quick" else 60
     done = skipped = 0
     for i in range(rounds):
-        for tls in (False, True):
+        for tls, see in ((False, None), (True, None), (True, True)):   # last: peer reset seen in the middle of every handshake
             try:
-                why = _real_round(tls, rng)
+                why = _real_round(tls, rng, see)
             except Exception as ex:   # environment trouble is not a verdict
                 ctx.notes.append(f"real-kernel round raised {type(ex).__name__}: {ex}")
                 skipped += 1
